@@ -368,22 +368,25 @@ class PartialSchemas(PartialFactory):
 def check_types(schema: Type[MetadataSchema], *, recheck: bool = False):
     if schema is MetadataSchema or schema.__types_checked__ and not recheck:
         return
-    schema.__types_checked__ = True
+    schema.__types_checked__ = True  # set first, to cut cycles
+    try:
+        # recursively check compositional and inheritance dependencies
+        for b in schema.__bases__:
+            if issubclass(b, MetadataSchema):
+                check_types(b, recheck=recheck)
 
-    # recursively check compositional and inheritance dependencies
-    for b in schema.__bases__:
-        if issubclass(b, MetadataSchema):
-            check_types(b, recheck=recheck)
+        schemaFields = cast(Any, schema.Fields)
+        for f in schemaFields:  # type: ignore
+            for sname in schemaFields[f].schemas:
+                s = schemaFields[f].schemas[sname]
+                if s is not schema and issubclass(s, MetadataSchema):
+                    check_types(s, recheck=recheck)
 
-    schemaFields = cast(Any, schema.Fields)
-    for f in schemaFields:  # type: ignore
-        for sname in schemaFields[f].schemas:
-            s = schemaFields[f].schemas[sname]
-            if s is not schema and issubclass(s, MetadataSchema):
-                check_types(s, recheck=recheck)
-
-    check_allowed_types(schema)
-    check_overrides(schema)
+        check_allowed_types(schema)
+        check_overrides(schema)
+    except Exception:
+        schema.__types_checked__ = False  # a refused schema must be refused again
+        raise
 
 
 def check_allowed_types(schema: Type[MetadataSchema]):
